@@ -442,6 +442,8 @@ var rdCorpus = []string{
 	"https://good.com/#\t", "http://good.com/%zz", "http://good.com/#%zz", "https://user:pw@good.com/", "https://us%er@good.com/", "https://us er@good.com/",
 	"/reports/view?from=2024&to=2025", "/a?x='1'&y=\"2\"", "/s?q=a&amp;b=c", "/t?lt=<&gt=>", "/oauth2-docs/guide?page=2", "/oauth2_clients/42/edit", "/oauth2.html", "/oauth2proxy/status", "/oauth", "/docs/oauth2/intro", "/oauth2x/y?z=1", "/o", "/oauth2~",
 	"/#/../\\evil.com/login", "/a#/../../\\evil.com", "/#/..//evil.com", "/a?x#/../..//evil.com", "/a;/../\\evil.com", "/#/../\t/evil.com",
+	// '?', '~', '>' at every alignment of a 3-byte group (a state or hidden field carried in another alphabet cuts or alters them)
+	"/a?x=1", "/ab?x=1", "/abc?x=1", "/a~b", "/ab~c", "/abc~d", "/p?q=>>>&r=???&s=~~~", "/wiki/Main_Page?action=history", "/pq?~>?~>", "/pqr?~>?~>?", "/pqrs?~>?~>??",
 	"/oauth2/callback", "/oauth2/sign_in", "/oauth2", "/oauth2x", "/\xc2\xa0/evil.com", "/\xe2\x80\xa8/evil.com", "/\xe9", "/a\xff/../b", "/x/../../y", "a/b/../c", "../x", "./x", "x//y/",
 }
 
